@@ -25,7 +25,7 @@ Definition status_header : bytes := bs "X-Httpcache-Status".
 Definition from_cache_header : bytes := bs "X-From-Cache".
 Definition apply_status (s : cache_status) (h : headers) : headers :=
   let h1 := hset status_header (status_value s) h in
-  if status_legacy s then hset from_cache_header (bs "1") h1 else h1.
+  if status_legacy s then hset from_cache_header (bs "1") h1 else hdel from_cache_header h1.
 
 Definition with_hdr (r : response) (h : headers) : response :=
   {| p_status := p_status r; p_hdr := h; p_body := p_body r; p_body_ok := p_body_ok r |}.
@@ -95,12 +95,12 @@ Definition response_504 : response :=
      p_body := -1; p_body_ok := true |}.
 
 (* ---- entries ---- *)
-Definition entry_of (r : response) (req_at recv_at : Z) : stored_entry :=
-  {| e_status := p_status r; e_hdr := p_hdr r; e_body := p_body r; e_req_at := req_at; e_recv_at := recv_at |}.
+Definition entry_of (id : bytes) (r : response) (req_at recv_at : Z) : stored_entry :=
+  {| e_id := id; e_status := p_status r; e_hdr := p_hdr r; e_body := p_body r; e_req_at := req_at; e_recv_at := recv_at |}.
 Definition response_of (e : stored_entry) : response :=
   {| p_status := e_status e; p_hdr := e_hdr e; p_body := e_body e; p_body_ok := true |}.
 Definition entry_with_hdr (e : stored_entry) (h : headers) : stored_entry :=
-  {| e_status := e_status e; e_hdr := h; e_body := e_body e; e_req_at := e_req_at e; e_recv_at := e_recv_at e |}.
+  {| e_id := e_id e; e_status := e_status e; e_hdr := h; e_body := e_body e; e_req_at := e_req_at e; e_recv_at := e_recv_at e |}.
 
 (* ---- internal/responsestorerer.go: StoreResponse ---- *)
 Fixpoint replace_nth {A} (n : nat) (x : A) (l : list A) : list A :=
@@ -127,7 +127,7 @@ Definition store_response (q : request) (r : response) (url_key : bytes)
         else replace_nth (Z.to_nat ref_index) (Some new_ref) refs in
       (* cache.Set fails before reaching the backend when the body cannot be dumped *)
       if p_body_ok r1
-      then SetEntry id (entry_of r1 req_at recv_at) (SetRefs url_key refs' (Ret r1))
+      then SetEntry id (entry_of id r1 req_at recv_at) (SetRefs url_key refs' (Ret r1))
       else SetRefs url_key refs' (Ret r1)
   end.
 
@@ -191,7 +191,8 @@ Definition round_trip_timed {A} (q : request) (c : origin_reply -> Z -> Z -> pro
 Record reval_ctx := {
   rc_url_key : bytes; rc_start : Z; rc_end : Z; rc_cc_req : directives;
   rc_stored : stored_entry; rc_fresh : freshness;
-  rc_refs : list (option ref); rc_ref_index : Z
+  rc_refs : list (option ref); rc_ref_index : Z;
+  rc_no_stale : bool
 }.
 
 Definition handle_validation_response (ctx : reval_ctx) (q : request) (rep : origin_reply) : prog outcome :=
@@ -200,8 +201,9 @@ Definition handle_validation_response (ctx : reval_ctx) (q : request) (rep : ori
   if is_304 then
     match rep with
     | RResp r =>
-        let h := apply_status REVALIDATED (update_stored_headers (e_hdr stored) (p_hdr r)) in
-        Ret (OResp (response_of (entry_with_hdr stored h)))
+        let merged := response_of (entry_with_hdr stored (update_stored_headers (e_hdr stored) (p_hdr r))) in
+        r1 <- store_response q merged (rc_url_key ctx) (rc_refs ctx) (rc_start ctx) (rc_end ctx) (rc_ref_index ctx) ;;
+        Ret (OResp (with_hdr r1 (apply_status REVALIDATED (p_hdr r1))))
     | RErr => Crash
     end
   else
@@ -223,17 +225,14 @@ Definition handle_validation_response (ctx : reval_ctx) (q : request) (rep : ori
               (Ret (OResp (with_hdr r (apply_status BYPASS (p_hdr r)))))
           else Ret (OResp (with_hdr r (apply_status BYPASS (p_hdr r))))
       end in
-    if sie_candidate then
-      match rep with
-      | RErr => Crash      (* ParseCCResponseDirectives(resp.Header) with resp == nil *)
-      | RResp r =>
-          let cc_resp := parse_cc (p_hdr r) in
-          Now (fun now =>
-            if can_stale_on_error (rc_fresh ctx) (resp_stale_if_error cc_resp) now then
-              let h := hset (bs "Age") (age_header_value (rc_fresh ctx) now) (e_hdr stored) in
-              Ret (OResp (response_of (entry_with_hdr stored (apply_status STALE h))))
-            else after_sie)
-      end
+    if negb (rc_no_stale ctx) && sie_candidate then
+      let stored_cc := parse_cc (e_hdr stored) in
+      Now (fun now =>
+        if can_stale_on_error (rc_fresh ctx)
+             [resp_stale_if_error stored_cc; req_stale_if_error (rc_cc_req ctx)] now then
+          let h := hset (bs "Age") (age_header_value (rc_fresh ctx) now) (e_hdr stored) in
+          Ret (OResp (response_of (entry_with_hdr stored (apply_status STALE h))))
+        else after_sie)
     else after_sie.
 
 (* ---- roundtripper.go ---- *)
@@ -253,14 +252,25 @@ Definition handle_cache_miss (q : request) (url_key : bytes) (refs : list (optio
           else Ret (OResp (with_hdr r (apply_status MISS (p_hdr r))))
       end).
 
+Definition strip_qualified (qualified : option (list bytes)) (h : headers) : headers :=
+  match qualified with
+  | Some fields => fold_left (fun acc fld => hdel fld acc) fields h
+  | None => h
+  end.
+
 Definition serve_from_cache (stored : stored_entry) (f : freshness) (now : Z)
            (qualified : option (list bytes)) : outcome :=
-  let h0 := match qualified with
-            | Some fields => fold_left (fun acc fld => hdel fld acc) fields (e_hdr stored)
-            | None => e_hdr stored
-            end in
+  let h0 := strip_qualified qualified (e_hdr stored) in
   let h1 := hset (bs "Age") (age_header_value f now) h0 in
-  OResp (response_of (entry_with_hdr stored (apply_status HIT h1))).
+  OResp (response_of (entry_with_hdr stored (apply_status (if f_expired f then STALE else HIT) h1))).
+
+(* slices.IndexFunc(refs, ref != nil && ref.ResponseID == id) *)
+Fixpoint ref_index_of (id : bytes) (l : list (option ref)) (i : Z) : Z :=
+  match l with
+  | [] => -1
+  | Some r :: t => if beq (r_id r) id then i else ref_index_of id t (i + 1)
+  | None :: t => ref_index_of id t (i + 1)
+  end.
 
 Definition background_revalidate (q : request) (stored : stored_entry) (url_key : bytes)
            (f : freshness) (cc_req : directives) : prog unit :=
@@ -268,16 +278,27 @@ Definition background_revalidate (q : request) (stored : stored_entry) (url_key 
     match rep with
     | RErr => Ret tt
     | RResp _ =>
-        let ctx := {| rc_url_key := url_key; rc_start := start; rc_end := stop; rc_cc_req := cc_req;
-                      rc_stored := stored; rc_fresh := f; rc_refs := []; rc_ref_index := 0 |} in
-        _ <- handle_validation_response ctx q rep ;; Ret tt
+        GetEntry (e_id stored) (fun own =>
+          match own with
+          | None => Ret tt
+          | Some own_entry =>
+              GetRefs url_key (fun ans =>
+                let refs := match ans with Some l => l | None => [] end in
+                let ctx := {| rc_url_key := url_key; rc_start := start; rc_end := stop; rc_cc_req := cc_req;
+                              rc_stored := own_entry; rc_fresh := f; rc_refs := refs;
+                              rc_ref_index := ref_index_of (e_id stored) refs 0;
+                              rc_no_stale := false |} in
+                _ <- handle_validation_response ctx q rep ;; Ret tt)
+          end)
     end).
 
 Definition handle_stale_while_revalidate (q : request) (stored : stored_entry) (url_key : bytes)
-           (f : freshness) (cc_req : directives) : prog outcome :=
+           (f : freshness) (cc_req : directives) (now : Z) (qualified : option (list bytes)) : prog outcome :=
   let q2 := with_conditional_headers q (e_hdr stored) in
+  let h0 := strip_qualified qualified (e_hdr stored) in
+  let h1 := hset (bs "Age") (age_header_value f now) h0 in
   Spawn (background_revalidate q2 stored url_key f cc_req)
-        (Ret (OResp (response_of (entry_with_hdr stored (apply_status STALE (e_hdr stored)))))).
+        (Ret (OResp (response_of (entry_with_hdr stored (apply_status STALE h1))))).
 
 Definition handle_cache_hit (q : request) (stored : stored_entry) (url_key : bytes)
            (refs : list (option ref)) (ref_index : Z) : prog outcome :=
@@ -289,28 +310,29 @@ Definition handle_cache_hit (q : request) (stored : stored_entry) (url_key : byt
     let qualified := match nc with Some raw => no_cache_fields raw | None => None end in
     let has_nc := match nc with Some _ => true | None => false end in
     let is_qualified := match qualified with Some _ => true | None => false end in
+    let must_validate :=
+      (has_nc && negb is_qualified) ||
+      ((f_stale f || f_expired f) && resp_must_revalidate cc_resp) ||
+      req_no_cache cc_req || f_req_max_age_exceeded f in
     let revalidate : prog outcome :=
       let q' := with_conditional_headers q (e_hdr stored) in
       round_trip_timed q' (fun rep start stop =>
         handle_validation_response
           {| rc_url_key := url_key; rc_start := start; rc_end := stop; rc_cc_req := cc_req;
-             rc_stored := stored; rc_fresh := f; rc_refs := refs; rc_ref_index := ref_index |}
+             rc_stored := stored; rc_fresh := f; rc_refs := refs; rc_ref_index := ref_index;
+             rc_no_stale := must_validate |}
           q' rep) in
-    if negb (f_stale f) && resp_immutable cc_resp && negb (req_no_cache cc_req) then
-      Ret (serve_from_cache stored f now qualified)
-    else if (f_stale f && resp_must_revalidate cc_resp) || (has_nc && negb is_qualified) then
-      revalidate
-    else if req_only_if_cached cc_req || (negb (f_stale f) && negb (req_no_cache cc_req)) then
+    if must_validate then
+      (if req_only_if_cached cc_req then Ret (OResp response_504) else revalidate)
+    else if negb (f_stale f) || req_only_if_cached cc_req then
       Ret (serve_from_cache stored f now qualified)
     else
       match resp_swr cc_resp with
       | Some swr =>
-          if f_stale f then
-            let age := dur_add (f_age f) (time_sub now (f_age_ts f)) in
-            let stale_for := wrap64 (age - f_life f) in
-            if (0 <=? stale_for) && (stale_for <? swr)
-            then handle_stale_while_revalidate q stored url_key f cc_req
-            else revalidate
+          let age := dur_add (f_age f) (time_sub now (f_age_ts f)) in
+          let stale_for := wrap64 (age - f_life f) in
+          if (0 <=? stale_for) && (stale_for <? swr)
+          then handle_stale_while_revalidate q stored url_key f cc_req now qualified
           else revalidate
       | None => revalidate
       end).
